@@ -46,10 +46,76 @@ def run_rules(ctx, rule_ids):
     return ctx.rep
 
 
+def _prefix(rule):
+    p = rule.split(".")[0]
+    return p[:3] if len(p) > 3 else p
+
+
+def _problems(rep, pid, rules, known):
+    """-> ({sub-rule: [violating obs]}, {rule prefix: [error text]})"""
+    bad = {}
+    for o in rep.for_prop(pid):
+        if o.verdict == "violation" and R.match_known(o, pid, known) is None:
+            bad.setdefault(o.rule, []).append(o)
+    errs = {}
+    for r, t in rep.errors:
+        if r in rules or r.split(".")[0] in rules:
+            errs.setdefault(_prefix(r), []).append((r, t))
+    for r, a in rep.missing_anchors(set(rules)):
+        errs.setdefault(_prefix(r), []).append(
+            (r, "anchor=%r matched nothing" % a))
+    return bad, errs
+
+
+def gather(ctx, pid):
+    """Evaluate the rules of a property on the source as written and, for
+    every sub-rule that does not hold there, on its canonical statement form
+    (sa/canon.py).  Canonicalisation preserves behaviour, so a clause
+    established on either form is established for the program; a finding is
+    reported only when it stands on both.
+    -> (obligations, [(rule, error text)], [sub-rules decided on the
+    canonical form])"""
+    spec = P.PROPS[pid]
+    rules = spec["rules"]
+    known = R.load_known()
+    rep = run_rules(ctx, rules)
+    obs = rep.for_prop(pid)
+    bad, errs = _problems(rep, pid, rules, known)
+    if not (bad or errs) or ctx.model.canon:
+        return obs, [e for v in errs.values() for e in v], []
+    ctx2 = ctx.cache.get("canon_ctx")
+    if ctx2 is None:
+        try:
+            ctx2 = Ctx(ctx.model.canonical())
+        except (AnalysisError, RecursionError):
+            return obs, [e for v in errs.values() for e in v], []
+        ctx.cache["canon_ctx"] = ctx2
+    rep2 = run_rules(ctx2, rules)
+    obs2 = rep2.for_prop(pid)
+    bad2, errs2 = _problems(rep2, pid, rules, known)
+    cleared = []
+    for pre in list(errs):
+        mine = [o for o in obs2 if _prefix(o.rule) == pre]
+        if pre not in errs2 and mine and not any(
+                _prefix(r) == pre for r in bad2):
+            del errs[pre]
+            obs = [o for o in obs if _prefix(o.rule) != pre] + mine
+            for r in [r for r in bad if _prefix(r) == pre]:
+                del bad[r]
+            cleared.append(pre)
+    for sub in list(bad):
+        mine = [o for o in obs2 if o.rule == sub]
+        if sub not in bad2 and mine and _prefix(sub) not in errs2:
+            del bad[sub]
+            obs = [o for o in obs if o.rule != sub] + mine
+            cleared.append(sub)
+    return obs, [e for v in errs.values() for e in v], cleared
+
+
 def decide(ctx, pid, tier, seed, t0, cmd, quiet=False, write=True):
     spec = P.PROPS[pid]
-    rep = run_rules(ctx, spec["rules"])
-    obs = rep.for_prop(pid)
+    obs, errors, canon_decided = gather(ctx, pid)
+    rep = ctx.rep
     known = R.load_known()
     out = []
     violations = []
@@ -67,8 +133,7 @@ def decide(ctx, pid, tier, seed, t0, cmd, quiet=False, write=True):
                                        "what": k.get("what")})
         else:
             violations.append(o)
-    errors = [(r, t) for r, t in rep.errors if r in spec["rules"]]
-    missing = [(r, a) for r, a in rep.missing_anchors(set(spec["rules"]))]
+    missing = []
     status = 0
     if violations:
         status = 1
@@ -106,6 +171,7 @@ def decide(ctx, pid, tier, seed, t0, cmd, quiet=False, write=True):
                  "tables": sorted(rep.tables),
                  "analysis_errors": [{"rule": r, "text": t}
                                      for r, t in errors],
+                 "decided_on_canonical_form": canon_decided,
                  "exhaustive": False}
         if ctx._res is not None:
             extra.update(ctx.res.stats())
